@@ -139,7 +139,7 @@ fn run_width(n: u8, occupied: usize) -> Verdict {
 		let slots: Vec<u64> = classes.iter().map(|c| make_slot(*c, kp, n)).collect();
 		let mut check = |page: &[u64; ENTRIES]| -> Option<String> {
 			pages += 1;
-			for start in 0..ENTRIES {
+			for start in 0..=ENTRIES {
 				calls += 1;
 				if let Err(e) = judge(n, key_prefix, page, start) {
 					let occ: Vec<String> = page.iter().enumerate().filter(|(_, e)| **e != 0).map(|(i, e)| format!("{}:{:#x}", i, e)).collect();
@@ -231,7 +231,7 @@ pub fn run(tier: &str) -> ! {
 	crate::search::cleanup_scratch();
 	run.set("evaluations", json!(calls));
 	run.set("distinct_nontrivial", json!(pages));
-	run.set("rule", json!(format!("every index size 16..=44 x key class (fast-compared bits and partial key nonzero / fast-compared bits zero but partial key nonzero (sizes 16,17) / partial key zero) x every page with at most {} occupied slots, each from {{exact match, exact match with another address, match only on the fast-compared bits, non-match, zero partial key with nonzero address}}, plus full pages with one special entry at each position x every start position 0..63; both the fast (SSE2) and the scalar search are called on each; distinct = pages (each differs in content), evaluations = (page, start) calls", occupied)));
+	run.set("rule", json!(format!("every index size 16..=44 x key class (fast-compared bits and partial key nonzero / fast-compared bits zero but partial key nonzero (sizes 16,17) / partial key zero) x every page with at most {} occupied slots, each from {{exact match, exact match with another address, match only on the fast-compared bits, non-match, zero partial key with nonzero address}}, plus full pages with one special entry at each position x every start position 0..=64 (64 = continue after slot 63: nothing may be found); both the fast (SSE2) and the scalar search are called on each; distinct = pages (each differs in content), evaluations = (page, start) calls", occupied)));
 	run.sample(json!({"index_bits": 16, "key_class": "fast-pattern zero, partial key nonzero", "page": "slot 5 = entry matching only on the 32 fast-compared bits, slot 9 = exact match", "start": 0, "expected": "fast path may return 5 or 9 only if it agrees on compared bits; never absent"}));
 	run.sample(json!({"index_bits": 30, "page": "63 non-matching entries, exact match at slot 63", "start": 63}));
 	run.assumptions = vec![
